@@ -33,9 +33,11 @@ TIERS = {
     # exhaustive family, sampled families [(nts, ts, max_rhs, max_prods, traces)], string bound for 2 / 3 terminals,
     # emboss derivations, shards (ambiguity is searched among all strings up to the same bound)
     "quick": {"exh": ("NT2", "T2", 2, 2), "samples": [("NT2", "T2", 2, 3, 800), ("NT3", "T3", 3, 4, 200)],
-              "n2": 5, "n3": 4, "emboss": 90, "emboss_tokens": 60, "procs": 12, "gen_procs": 3},
+              "n2": 5, "n3": 4, "emboss": 90, "emboss_tokens": 60, "procs": 12, "gen_procs": 3,
+              "idioms": [(2, True), (3, False)]},
     "thorough": {"exh": ("NT2", "T2", 2, 3), "samples": [("NT3", "T3", 3, 4, 2000), ("NT3", "T3", 3, 5, 2000)],
-                 "n2": 6, "n3": 4, "emboss": 1500, "emboss_tokens": 60, "procs": 14, "gen_procs": 8},
+                 "n2": 6, "n3": 4, "emboss": 1500, "emboss_tokens": 60, "procs": 14, "gen_procs": 8,
+                 "idioms": [(3, True)]},
 }
 
 
@@ -237,6 +239,15 @@ def run(chk, only=None):
                                                      simulate=traces, seed=chk.seed * 7 + k + 1)
                 chk.add_tlc(res, part="grammargen-sample")
                 grammars += gs
+            # structured family: concatenations of list / option / wrapper idioms (IdiomGen.tla), exhaustive
+            n_idiom = 0
+            for k, (mp, same) in enumerate(tier.get("idioms", [])):
+                gs, res = grammar_gen.idiom_grammars(sc, "idiom%d" % k, max_parts=mp, same_terminals=same)
+                chk.add_tlc(res, part="idiomgen-exhaustive")
+                if not res.clean:
+                    raise MachineryError("IdiomGen failed:\n" + res.error_trace_tail())
+                n_idiom += len(gs)
+                grammars += [{"start": g["start"], "prods": g["prods"]} for g in gs]
             seen, specs = set(), []
             for g in grammars:
                 key = json.dumps(g, sort_keys=True)
@@ -264,7 +275,7 @@ def run(chk, only=None):
             chk.extra["small_grammars"] = {
                 "exhaustive_family": {"nonterminals": tier["exh"][0], "terminals": tier["exh"][1], "max_rhs": tier["exh"][2],
                                       "max_productions": tier["exh"][3], "grammars": n_exh},
-                "sampled_families": [list(s) for s in tier["samples"]], "distinct_grammars": len(specs),
+                "sampled_families": [list(s) for s in tier["samples"]], "idiom_grammars": n_idiom, "distinct_grammars": len(specs),
                 "conflict_free": tot["conflictFree"], "with_conflicts_or_refused": tot["cases"] - tot["conflictFree"],
                 "strings_parsed": tot["runs"], "accepted": tot["accepted"],
                 "generator_exceptions": n_exc}
